@@ -71,7 +71,8 @@ def verify_contract(target, timeout_ms=5000, retry=True):
 EXTERNAL = [
     ("z3-5.1-cli", ["z3-new", "-smt2", "-T:{t}", "{f}"]),
     ("z3-5.1-cli-seed7", ["z3-new", "-smt2", "-T:{t}", "smt.random_seed=7", "{f}"]),
-    ("z3-4.8-cli", ["/usr/bin/z3", "-smt2", "-T:{t}", "{f}"]),
+    # /usr/bin/z3 4.8.12 is NOT used: it answered `unsat` on a satisfiable string + UF query (GLOB left uninterpreted) during the
+    # seeded-defect runs; only the engine that produced the VC (fresh process) and cvc5 may discharge what the API left open
     ("cvc5-1.0", ["/usr/bin/cvc5", "--tlimit={tms}", "--strings-exp", "--lang=smt2", "{f}"]),
 ]
 
